@@ -317,6 +317,25 @@ static void uv__process_child_init(const uv_process_options_t* options,
   if (options->flags & UV_PROCESS_DETACHED)
     setsid();
 
+  /* The error pipe is created after the stdio pairs, so its number can be
+   * below stdio_count. Move it out of the way first, or the loops below would
+   * dup2() a stdio descriptor over it and an exec failure would be reported
+   * to the parent as success. Both copies are close-on-exec. */
+  if (error_fd < stdio_count) {
+#ifdef F_DUPFD_CLOEXEC /* POSIX 2008 */
+    n = fcntl(error_fd, F_DUPFD_CLOEXEC, stdio_count);
+#else
+    n = fcntl(error_fd, F_DUPFD, stdio_count);
+    if (n != -1 && uv__cloexec(n, 1)) {
+      uv__close(n);
+      n = -1;
+    }
+#endif
+    if (n == -1)
+      uv__write_errno(error_fd);
+    error_fd = n;
+  }
+
   /* First duplicate low numbered fds, since it's not safe to duplicate them,
    * they could get replaced. Example: swapping stdout and stderr; without
    * this fd 2 (stderr) would be duplicated into fd 1, thus making both
